@@ -349,6 +349,96 @@ func runHandlers(c *mc.Ctx, r *mc.Result) {
 	}
 }
 
+// runShared: the same option VALUES reused for several routes must not couple the routes.
+func runShared(c *mc.Ctx, r *mc.Result) {
+	if c.Shard != 0 {
+		return
+	}
+	ros := routeOpts()
+	r.Bounds["shared"] = fmt.Sprintf("every route option (%d) as a value shared by three routes, followed on routes 1 and 3 by every other option (%d): each route is compared with its own fold model after all three exist", len(ros), len(ros))
+	for si, shared := range ros {
+		for ei, extra := range ros {
+			for ej := 0; ej < len(ros); ej += 5 {
+				extra2 := ros[ej]
+				f, err := fox.New()
+				if err != nil {
+					r.Errors = append(r.Errors, err.Error())
+					return
+				}
+				sm := &model{}
+				sm.apply(shared, 1, false)
+				if sm.invalid {
+					continue
+				}
+				inst := toRoute(shared, 1)
+				type rdef struct {
+					pat   string
+					extra *opt
+				}
+				defs := []rdef{{"/one", &extra}, {"/two", nil}, {"/three", &extra2}}
+				var routes []*fox.Route
+				var models []*model
+				ok := true
+				for _, d := range defs {
+					m := &model{}
+					m.apply(shared, 1, false)
+					opts := []fox.RouteOption{inst}
+					if d.extra != nil {
+						m.apply(*d.extra, 2, false)
+						opts = append(opts, toRoute(*d.extra, 2))
+					}
+					var rt *fox.Route
+					var pv any
+					func() {
+						defer func() { pv = recover() }()
+						rt, err = f.NewRoute(d.pat, func(fox.Context) {}, opts...)
+					}()
+					if pv != nil {
+						r.Violate("shared", "panic", fmt.Sprintf("NewRoute panicked: %v (shared %v, extra %v)", pv, shared, d.extra), map[string]any{"shared": si, "extra": ei})
+						ok = false
+						break
+					}
+					if m.invalid {
+						continue
+					}
+					if err != nil {
+						ok = false
+						break
+					}
+					routes = append(routes, rt)
+					models = append(models, m)
+				}
+				if !ok {
+					continue
+				}
+				r.Evaluations++
+				r.DistinctNontrivial++
+				for i, rt := range routes {
+					m := models[i]
+					msg := ""
+					if rt.RedirectTrailingSlashEnabled() != m.redirect || rt.IgnoreTrailingSlashEnabled() != m.ignore {
+						msg = "trailing-slash mode"
+					}
+					for ki, k := range annotKeys {
+						if !k.valid {
+							continue
+						}
+						got := rt.Annotation(k.key())
+						want, has := m.annots[ki]
+						if (has && got != want) || (!has && got != nil) {
+							msg = fmt.Sprintf("Annotation(%s) = %v, want %v (present=%v)", k.name, got, want, has)
+						}
+					}
+					if msg != "" {
+						r.Violate("shared", "routes-coupled", fmt.Sprintf("route %s created with the shared option value %v (and %v for the other routes) has wrong %s: a route's options must not be affected by other routes built from the same option values", rt.Pattern(), shared, []opt{extra, extra2}, msg), map[string]any{"shared": si, "extra": ei, "extra2": ej})
+						break
+					}
+				}
+			}
+		}
+	}
+}
+
 func runOptions(c *mc.Ctx, r *mc.Result) {
 	maxRoute := 3
 	if c.Quick() {
@@ -429,6 +519,16 @@ func init() {
 				}
 				_, msg := evalCase(cs)
 				return msg
+			}},
+			{Name: "shared", Run: runShared, Replay: func(c *mc.Ctx, raw json.RawMessage) string {
+				r := mc.NewResult()
+				cc := *c
+				cc.Shard = 0
+				runShared(&cc, r)
+				if len(r.Violations) > 0 {
+					return r.Violations[0].Msg
+				}
+				return ""
 			}},
 			{Name: "handlers", Run: runHandlers, Replay: func(c *mc.Ctx, raw json.RawMessage) string {
 				r := mc.NewResult()
